@@ -348,6 +348,15 @@ def check(ctx):
             o.fail(P, s.ctx, s.stmt, 'the registration dict is changed outside register/unregister', file=s.mod.path, line=s.line)
         if role[0] == 'store' and not (s.cls is c and s.func.name == '__init__'):
             o.fail(P, s.ctx, s.stmt, 'the registration dict is re-bound', file=s.mod.path, line=s.line)
+        if role[0] == 'store' and s.cls is c and s.func.name == '__init__':
+            # registration order and "registered until unregistered" are what a plain dict gives: it keeps insertion order and holds its keys
+            v_ = s.stmt.value if isinstance(s.stmt, ast.Assign) else None
+            plain = (isinstance(v_, ast.Dict) and not v_.keys) or (isinstance(v_, ast.Call) and isinstance(v_.func, ast.Name) and v_.func.id == 'dict' and not v_.args and not v_.keywords)
+            if not plain:
+                o.fail(P, s.ctx, s.stmt, f'the registered objects are kept in `{ast.unparse(v_) if v_ is not None else "?"}`, not in a plain dict: a container that does not hold its keys '
+                       '(weak references), orders them differently or merges equal keys changes which objects are acted on, and in which order', file=s.mod.path, line=s.line)
+            else:
+                o.witness('plain-dict')
 
     # ---- C18.6 -----------------------------------------------------------------------------------------
     o = Ob('C18.6', 'K13', 'the documented default of is_cyclical equals the signature default')
@@ -366,6 +375,7 @@ def check(ctx):
                           'keep one discipline (removing from a heap as if it were a sorted list lets a later transition overtake an earlier one)'))
     obs.append(ctx.shared('c20', 'C20.4', 'C18.8', 'a scheduler starts its timetable in initialize(): every asset is initialised exactly once, also one created while the others are '
                           'being initialised (a second initialisation starts a second, shifted copy of the timetable)'))
+    obs.append(dv.falsy_default_obligation(ctx, 'C18.9', ['ActionScheduler'], 'durations and flags of a timetable are what was given'))
     return obs
 
 
